@@ -18,6 +18,7 @@
 package main
 
 import (
+	"bytes"
 	"errors"
 	"fmt"
 	"os"
@@ -194,6 +195,36 @@ func coherent(es []wallet.Entry, wantSecret bool) bool {
 	return true
 }
 
+// readOnlyCalls makes the read-only calls of the Wallet interface and reports whether
+// the wallet's serialisation is the same before and after.
+func readOnlyCalls(w wallet.Wallet) bool {
+	before, err := w.Serialize()
+	if err != nil {
+		return false
+	}
+	panicked := Guard(func() {
+		_ = w.Fingerprint()
+		es, _ := w.GetEntries()
+		_, _ = w.GetAddresses()
+		_, _ = w.EntriesLen()
+		_, _ = w.Serialize()
+		c := w.Clone()
+		_ = c.Fingerprint()
+		_, _ = c.GetEntries()
+		_, _, _, _ = w.Coin(), w.XPub(), w.Type(), w.Label()
+		_, _, _ = w.Seed(), w.LastSeed(), w.SeedPassphrase()
+		_, _ = w.IsEncrypted(), w.Accounts()
+		_, _ = w.GetEntryAt(0)
+		if len(es) > 0 {
+			_, _ = w.HasEntry(es[0].Address)
+			_, _ = w.GetEntry(es[0].Address)
+		}
+		_ = w.Fingerprint()
+	})
+	after, err := w.Serialize()
+	return !panicked && err == nil && bytes.Equal(before, after)
+}
+
 func saveReload(w wallet.Wallet, dir string) (wallet.Wallet, error) {
 	if err := wallet.Save(w, dir); err != nil {
 		return nil, err
@@ -292,9 +323,19 @@ func runDet(o *Out, r *Rng, n int, dir string, hist Hist, caseJSON map[string][]
 			}
 			ops = append(ops, "DFailed")
 		}
-		for k := 3 + r.Intn(7); k > 0; k-- {
+		nDet := 3 + r.Intn(7)
+		for k := nDet; k > 0; k-- {
 			x := r.Intn(14)
+			if (k == nDet && r.Chance(60)) || r.Chance(10) {
+				x = 20 // read-only calls, often first (possibly on the still empty wallet)
+			}
 			switch {
+			case x == 20:
+				if !readOnlyCalls(cur) {
+					failsOK = false
+				}
+				ops = append(ops, "DRead")
+				opNames = append(opNames, "Read")
 			case x == 10: // scan with a finder that errors
 				_, err := cur.ScanAddresses(uint64(1+r.Intn(5)), &failingFinder{failAt: 0})
 				mustFail(err)
@@ -603,7 +644,16 @@ func runIdx(o *Out, r *Rng, n int, dir string, hist Hist, caseJSON map[string][]
 			if !isXpub && accounts == 1 && !locked && r.Chance(12) {
 				x = 14
 			}
+			if (k == nops && r.Chance(60)) || r.Chance(10) {
+				x = 20 // read-only calls, often first (possibly on the still empty wallet)
+			}
 			switch {
+			case x == 20:
+				if !readOnlyCalls(cur) {
+					ok = false
+				}
+				ops = append(ops, "IRead")
+				opNames = append(opNames, "Read")
 			case x == 14: // a second account (needs the seed and the bip44 coin number, possibly after a reload)
 				bw, isB := cur.(*bip44wallet.Wallet)
 				if !isB {
